@@ -127,6 +127,9 @@ pub struct AuthScenario {
     pub name: String,
     pub token: Token,
     pub requests: Vec<CM>,
+    /// changes made by the server's own client (another, unrestricted writer): what then reaches the
+    /// session through its subscriptions must be covered by its read grants
+    pub env: Vec<(&'static str, i64)>,
     pub open: BTreeSet<String>,
 }
 
@@ -176,10 +179,13 @@ fn revealed(msg: &SM, req: Option<&CM>, subs: &BTreeMap<u64, String>) -> Vec<Str
 
 impl Scenario for AuthScenario {
     fn num_ops(&self) -> usize {
-        self.requests.len()
+        self.requests.len() + self.env.len()
     }
     fn op_json(&self, op: u16) -> Value {
-        json!(serde_json::to_string(&self.requests[op as usize]).unwrap_or_default())
+        match self.requests.get(op as usize) {
+            Some(r) => json!(serde_json::to_string(r).unwrap_or_default()),
+            None => json!(format!("another writer sets {:?}", self.env[op as usize - self.requests.len()])),
+        }
     }
     fn run(&self, history: &[u16]) -> Option<StepOut> {
         block_on(async {
@@ -228,6 +234,37 @@ impl Scenario for AuthScenario {
                         return None;
                     }
                     panic!("MACHINERY: closed session in prefix");
+                }
+                if *o as usize >= self.requests.len() {
+                    // another writer changes a key; whatever the session is told about it must be covered
+                    let (k, v) = self.env[*o as usize - self.requests.len()];
+                    world.drain(0);
+                    // (refused where the session turned the key into a CAS value: then nothing happens)
+                    world.api.set(k.to_owned(), json!(v), cid(INTERNAL)).await.ok();
+                    crate::session::settle().await;
+                    let out = world.drain(0);
+                    class = format!("env:{}", if out.is_empty() { "silent" } else { "event" });
+                    for m in &out {
+                        let told = match m {
+                            SM::State(_) => vec![k.to_owned()],
+                            SM::PState(p) => match &p.event {
+                                PStateEvent::KeyValuePairs(kvs) | PStateEvent::Deleted(kvs) => kvs.iter().map(|kv| kv.key.clone()).collect(),
+                            },
+                            _ => vec![],
+                        };
+                        for key in told {
+                            if !valid || !covered(&g.read, &key) {
+                                violation = Some(format!("a change of {key:?} by another writer was delivered to the session ({m:?}), which its read grants {:?} do not cover", g.read));
+                            }
+                        }
+                    }
+                    if violation.is_some() {
+                        if !last {
+                            panic!("MACHINERY: prefix violated on replay: {violation:?}");
+                        }
+                        break;
+                    }
+                    continue;
                 }
                 let req = &self.requests[*o as usize];
                 let before = content_of_world(&world).await;
@@ -417,6 +454,13 @@ pub fn requests() -> Vec<CM> {
         out.push(CM::Lock(Lock { transaction_id: next(), key: s(k) }));
         out.push(CM::Subscribe(Subscribe { transaction_id: next(), key: s(k), unique: false, live_only: None }));
     }
+    // key-carrying request kinds whose key is a pattern: the server parses a subscribe key as one
+    for (i, k) in ["a/#", "a/?", "#"].iter().enumerate() {
+        out.push(CM::Subscribe(Subscribe { transaction_id: 600 + i as u64, key: s(k), unique: false, live_only: Some(true) }));
+    }
+    out.push(CM::Get(Get { transaction_id: next(), key: s("a/#") }));
+    out.push(CM::Set(Set { transaction_id: next(), key: s("a/?"), value: json!(9) }));
+    out.push(CM::Delete(Delete { transaction_id: next(), key: s("a/#") }));
     out.push(CM::SPubInit(SPubInit { transaction_id: 500, key: s("ab") }));
     out.push(CM::SPubInit(SPubInit { transaction_id: 501, key: s("a/b") }));
     out.push(CM::SPub(SPub { transaction_id: 500, value: json!(6) }));
@@ -459,7 +503,7 @@ pub fn run(tier: &str, known: &mc::Known, lim: impl Fn(usize, usize, bool, u64) 
     ev.set("containment_key_checks", json!(key_checks));
     let mut classes = BTreeSet::new();
     for (name, token) in tokens() {
-        let sc = AuthScenario { name: name.clone(), token, requests: requests(), open: known.open_for("C15") };
+        let sc = AuthScenario { name: name.clone(), token, requests: requests(), env: vec![("a/b/c", 71), ("a/b", 72), ("ab", 73)], open: known.open_for("C15") };
         let depth = if tier == "thorough" { 8 } else { 5 };
         let stats = mc::explore(&sc, &lim(depth, 2, true, if tier == "thorough" { 400 } else { 30 }));
         eprintln!("[C15/{name}] states={} transitions={} depth={} classes={} known={} violations={}", stats.states, stats.transitions, stats.depth_completed, stats.classes.len(), stats.known.len(), stats.violations.len());
